@@ -99,7 +99,7 @@ fn run_one(client_port: u16, f: &FlowEnd, tag: u64, tap: Option<&Tap>, keep: &st
         }
         End::ColdUploadThenClose => {
             let n = (f.up.max(20_000)).saturating_mul(8).min(1_400_000);
-            let r = crate::sys::flow::cold_upload(client_port, f.hs, n, tag, (f.down % 400) as u16);
+            let r = crate::sys::flow::cold_upload(client_port, f.hs, n, tag, if f.down % 3 == 0 { 900 + (f.down % 700) as u16 } else { (f.down % 300) as u16 });
             (r.err(), true)
         }
         End::TargetRefused | End::TargetUnresolvable => {
